@@ -6,6 +6,7 @@ import SmppVerif.Model.Wire
 import SmppVerif.Model.Gsm
 import SmppVerif.Model.Packed
 import SmppVerif.Model.Time
+import SmppVerif.Model.Receipt
 
 namespace SmppVerif.Driver
 open SmppVerif SmppVerif.Wire
@@ -30,6 +31,20 @@ def parseTimeObj : List String → Option Time.TimeObj
     match d.toInt?, s.toNat?, us.toNat? with
     | some d, some s, some us => some (.rel ⟨d, s, us⟩)
     | _, _, _ => none
+  | _ => none
+
+def showRVal : Receipt.RVal → String
+  | .int n => s!"i{n}"
+  | .date y mo d h mi => s!"d{y}.{mo}.{d}.{h}.{mi}"
+  | .str s => "s" ++ showNats s
+
+def showRDict (d : Receipt.RDict) : String :=
+  "ok" ++ String.join (d.map fun (k, v) => " " ++ showNats k ++ "=" ++ showRVal v)
+
+def parseDate (s : String) : Option (Option (Nat × Nat × Nat × Nat × Nat)) :=
+  if s = "~" then some none else
+  match (s.splitOn ".").mapM (·.toNat?) with
+  | some [y, mo, d, h, mi] => some (some (y, mo, d, h, mi))
   | _ => none
 
 def step (line : String) : String :=
@@ -71,6 +86,17 @@ def step (line : String) : String :=
     match parseNats t with
     | some t => (match Time.fromSmpp t with | .ok r => showTimeObj r | .error e => showExc e)
     | none => "bad-op"
+  | ["rcpt.parse", esm, tlv, t] =>
+    match esm.toNat?, (if tlv = "~" then some none else (parseNats tlv).map some), parseNats t with
+    | some esm, some tlv, some t =>
+      (match Receipt.parse esm t tlv with | .ok d => showRDict d | .error e => showExc e)
+    | _, _, _ => "bad-op"
+  | ["rcpt.build", id, sub, dlvrd, sd, dd, stat, err, text] =>
+    match parseNats id, sub.toInt?, dlvrd.toInt?, parseDate sd, parseDate dd, parseNats stat, err.toInt?,
+          parseNats text with
+    | some id, some sub, some dlvrd, some sd, some dd, some stat, some err, some text =>
+      "ok " ++ showNats (Receipt.build ⟨id, sub, dlvrd, sd, dd, stat, err, text⟩)
+    | _, _, _, _, _, _, _, _ => "bad-op"
   | _ => "bad-op"
 
 partial def loop (h : IO.FS.Stream) (out : IO.FS.Stream) : IO Unit := do
